@@ -6,6 +6,7 @@ import (
 	"reflect"
 	"strings"
 	"sync"
+	"sync/atomic"
 	"unsafe"
 
 	"github.com/google/go-tdx-guest/abi"
@@ -25,6 +26,8 @@ import (
 // input buffer and option byte strings; the seeded scheduler switches between them at
 // tape-chosen yield points and at every Getter park.  At every context switch the bytes
 // reachable from the shared values — up to capacity — must be unchanged.
+
+var c16Stalls atomic.Int64
 
 // c16SetHook installs the yield hook of the instrumented copy (nil in a plain build).
 var c16SetHook func(func(site string))
@@ -237,6 +240,13 @@ func funcOfSite(site string) string {
 }
 
 func c16Run(r *core.Run) {
+	if c16Stalls.Load() > 0 {
+		// an earlier schedule of this process ended with a task blocked outside a yield point, i.e. the code under
+		// test makes callers wait for one another; the goroutines left behind may hold whatever the others wait
+		// for, so nothing further can be run in this process (counted; the batch ends early, never a verdict)
+		core.GlobalCount("runs_skipped_after_a_stalled_schedule", 1)
+		return
+	}
 	raceMode := os.Getenv("VERIF_RACE") != ""
 	if c16SetHook == nil && !raceMode {
 		panic("C16 must be built against the instrumented copy (tag c16instr); bin/vcheck does that")
@@ -558,11 +568,22 @@ func c16Run(r *core.Run) {
 		r.Count("yield_points_reached_by_foreign_goroutines(schedule_not_exactly_replayable)", int64(sched.Foreign))
 	}
 	c16SetHook(nil)
+	if sched.Stalled {
+		c16Stalls.Add(1)
+		// a task blocked on something only a parked task could release (the code under test waits for another
+		// caller's progress): nothing can be said about this schedule
+		core.GlobalCount("schedules_given_up_because_a_task_blocked_outside_a_yield_point", 1)
+		sched = nil
+		return
+	}
 	sched = nil
 	r.Fault("sched:preemption_at_yield_point", len(switchLog) > K)
 	for k, tk := range tasks {
 		for i := range tk.ops {
 			r.Eval()
+			if i >= len(tk.sched) {
+				continue
+			}
 			r.Eventf("task %d op %s solo=%s scheduled=%s", k, tk.ops[i].name, tk.solo[i], tk.sched[i])
 			if i < len(tk.sched) && tk.solo[i] != tk.sched[i] {
 				r.Violate("C16:verdict-differs-under-interleaving", "task %d, %s: alone -> %s, interleaved -> %s (switches: %v)", k, tk.ops[i].name, tk.solo[i], tk.sched[i], switchLog)
